@@ -22,6 +22,11 @@ impl Registers {
         self.a.clone()
     }
 
+    #[cfg(feature = "verif")]
+    pub fn verif_a(&self) -> &Variant {
+        &self.a
+    }
+
     pub fn get_b(&self) -> Variant {
         self.b.clone()
     }
